@@ -56,7 +56,7 @@ func init() {
 		})
 	clusterCheck("C02",
 		func() []Unit {
-			return scUnits(1, "write3", "write3-pipe", "crash3", "snap3", "snap3-pipe", "snap3-trail1", "snap3-mono", "stale-suffix", "majority-restart", "member", "rcl3-snap", "autosnap3")
+			return scUnits(1, "write3", "write3-pipe", "crash3", "snap3", "snap3-pipe", "snap3-trail1", "snap3-mono", "stale-suffix", "majority-restart", "member", "rcl3-snap", "autosnap3", "batch-mix", "batch-mix-cfgstore")
 		},
 		func() []Unit {
 			return scUnits(2, "write3", "write3-pipe", "crash3", "snap3", "snap3-pipe", "snap3-trail1", "snap3-mono", "stale-suffix", "majority-restart", "member", "fig8", "transfer")
@@ -91,10 +91,10 @@ func init() {
 		})
 	clusterCheck("C08",
 		func() []Unit {
-			return scUnits(1, "write3", "write3-slowfsm", "write3-pipe", "crash3", "crash3-slowfsm", "transfer", "transfer-pipe", "majority-restart")
+			return cat(scUnits(1, "write3", "write3-slowfsm", "write3-pipe", "crash3", "crash3-slowfsm", "transfer", "transfer-pipe", "majority-restart", "batch-mix", "batch-mix-plain"), scUnits(2, "apply-fine1", "apply-fine1-batching"))
 		},
 		func() []Unit {
-			return cat(scUnits(2, "write3", "write3-slowfsm", "write3-pipe", "crash3", "crash3-slowfsm", "transfer", "transfer-slowfsm", "transfer-pipe", "majority-restart", "fig8"), scUnits(3, "apply-fine1", "apply-fine1-batching"))
+			return cat(scUnits(2, "write3", "write3-slowfsm", "write3-pipe", "crash3", "crash3-slowfsm", "transfer", "transfer-slowfsm", "transfer-pipe", "majority-restart", "fig8", "batch-mix", "batch-mix-plain", "batch-mix-cfgstore"), scUnits(3, "apply-fine1", "apply-fine1-batching"))
 		})
 	clusterCheck("C10",
 		func() []Unit {
